@@ -415,6 +415,15 @@ def family_stores(fn, u, field):
     return sorted(set(out))
 
 
+# objects are zero-filled at birth: the functions of these units rely on it for every field their constructors do not store
+_run_clauses = run
+
+
+def run(prog, rep):
+    _run_clauses(prog, rep)
+    from plint.wiring import check_zero_init
+    check_zero_init(rep, "C17.2", prog, ['psocketaddress.c'], 4)
+
 # generic robustness battery: renaming every local/parameter in these files must not change any verdict
 RENAME_LOCALS = ['src/psocketaddress.c']
 
